@@ -68,6 +68,7 @@ func detrestGlueSuite(c *Ctx) {
 		"(bool, int, string, nil, float, foreign slices, struct, func, typed-nil callback) or a real result-point callback (must not change the verdict); oracle: no panic, result xor error of a documented kind"
 	{
 		r := c.Rng.Fork()
+		detrestGlueBitmapFailures(c)
 		detrestGlueCallback(c, r)
 		detrestGlueAztec(c, r)
 	}
@@ -114,6 +115,47 @@ func detrestGlueSuite(c *Ctx) {
 			_ = outside // points may legitimately lie outside (rotated retry): counted, not judged
 		}
 	})
+}
+
+// a binarizer whose GetBlackMatrix / GetBlackRow fail the way the library's binarizers do (NotFoundException)
+type detrestFailBin struct{ w, h int }
+
+func (b detrestFailBin) GetLuminanceSource() gozxing.LuminanceSource { return nil }
+func (b detrestFailBin) GetBlackRow(y int, row *gozxing.BitArray) (*gozxing.BitArray, error) {
+	return nil, gozxing.NewNotFoundException("no black point")
+}
+func (b detrestFailBin) GetBlackMatrix() (*gozxing.BitMatrix, error) {
+	return nil, gozxing.NewNotFoundException("no black point")
+}
+func (b detrestFailBin) CreateBinarizer(source gozxing.LuminanceSource) gozxing.Binarizer { return b }
+func (b detrestFailBin) GetWidth() int                                                    { return b.w }
+func (b detrestFailBin) GetHeight() int                                                   { return b.h }
+
+// NewBinaryBitmap(nil) is refused with an error; a bitmap whose binarizer cannot produce a matrix / row makes every
+// reader answer an error of a documented kind (QR hands the error through, Data Matrix / Aztec wrap it)
+func detrestGlueBitmapFailures(c *Ctx) {
+	out := Safe(func() string {
+		bb, e := gozxing.NewBinaryBitmap(nil)
+		if bb != nil || e == nil {
+			return "ACCEPTED"
+		}
+		return "ok refused"
+	})
+	c.Oracle("c06rest-glue", out == "ok refused", "c06rest:NewBinaryBitmap(nil):"+out, "NewBinaryBitmap(nil)", "gave "+out)
+	for _, rd := range c06Readers {
+		rd := rd
+		for _, pure := range []bool{false, true} {
+			hints := map[gozxing.DecodeHintType]interface{}{}
+			if pure {
+				hints[gozxing.DecodeHintType_PURE_BARCODE] = true
+			}
+			bmp, _ := gozxing.NewBinaryBitmap(detrestFailBin{40, 30})
+			v := c06Judge(c, c06Case{Entry: rd.Name, Class: "binarizer-fails", Feat: fmt.Sprint("pure=", pure), Image: true,
+				Desc: fmt.Sprintf("%s binarizer-fails pure=%v", rd.Name, pure)},
+				func() (bool, error) { return rd.Call(bmp, hints) })
+			c.Note("c06rest glue binarizer-fails " + rd.Name + " " + v.Out)
+		}
+	}
 }
 
 // the UPC/EAN hint prologue against Gzx.Glue.upceanCallback: is the callback invoked?
